@@ -42,7 +42,8 @@ FromPolySpecs ==
 
 \* ---------------------------------------------------------------- C01: networks
 W(m, b) == [k |-> "linear", a |-> Aff(m, b)]
-Lin12 == {W(<<<<1>>, <<-1>>>>, <<0, 1>>), W(<<<<2>>, <<1>>>>, <<-1, -1>>)}
+\* the third one puts the argmax tie of (relu(x - 1), 1 - x) exactly on the ReLU breakpoint x = 1
+Lin12 == {W(<<<<1>>, <<-1>>>>, <<0, 1>>), W(<<<<2>>, <<1>>>>, <<-1, -1>>), W(<<<<1>>, <<-1>>>>, <<-1, 1>>)}
 Lin22 == {W(<<<<1, -1>>, <<1, 1>>>>, <<0, -1>>), W(<<<<0, 1>>, <<-1, 0>>>>, <<1, 0>>), W(<<<<1, 0>>, <<1, 0>>>>, <<0, 0>>)}
 Lin21 == {W(<<<<1, -1>>>>, <<0>>)}
 Lin23 == {W(<<<<1, 0>>, <<0, 1>>, <<1, 1>>>>, <<0, 0, -1>>)}
@@ -88,7 +89,14 @@ Nets ==
                             : l2 \in Lin22 \cup Lin21 \cup Lin23, tl \in {<<>>, <<ActLayer("relu", 0)>>}} : fl \in First}
                   \cup {[dim |-> fl[1], layers |-> <<fl[2], ActLayer("relu", 0), l2, l3, [k |-> "argmax"]>>, pre |-> [kind |-> "none"]]
                             : fl \in First, l2 \in {CHOOSE x \in Lin23 : TRUE}, l3 \in {W(<<<<1, 0, -1>>, <<0, 2, 1>>>>, <<0, 1>>)}}
-    IN One \cup Two \cup Twice \cup Wide \cup LinLin
+        \* a head directly behind the first linear layer (ties of the head on the boundary of the precondition), and the same
+        \* activation on the same neuron before and after a second linear layer
+        PreDiag == [kind |-> "poly", poly |-> [m |-> <<<<1, -1>>>>, b |-> <<0>>, q |-> 1, n |-> 2]]                                    \* x <= y
+        Bare == UNION {{[dim |-> fl[1], layers |-> <<fl[2]>> \o hd, pre |-> pr] : hd \in Heads(2) \ {<<>>}, pr \in Pres(fl[1]) \cup (IF fl[1] = 2 THEN {PreDiag} ELSE {})}
+                       : fl \in First \cup {<<2, W(<<<<1, 0>>, <<0, 1>>>>, <<0, 0>>)>>}}
+        Again == UNION {{[dim |-> fl[1], layers |-> <<fl[2], ActLayer(kd, 0), CHOOSE x \in Lin22 : TRUE, ActLayer(kd, 0)>>, pre |-> [kind |-> "none"]]
+                            : kd \in {"relu", "hard_tanh"}} : fl \in First}
+    IN One \cup Two \cup Twice \cup Wide \cup LinLin \cup Bare \cup Again
 
 \* ---------------------------------------------------------------- C18: builder calls
 Call(nm, args) == [call |-> nm] @@ args
